@@ -47,43 +47,107 @@ def num(s):
     return int(s, 0)
 
 
+NUMLIT = r"(?:0x[0-9a-fA-F_]+|0b[01_]+|0o[0-7_]+|[0-9][0-9_]*)(?:u8|u16|u32|u64|usize|i32|i64)?"
+
+
+class Env:
+    """constants of one source file: `const NAME: T = <expr>;` (items and associated consts) and, per function,
+    `let name: T = <literal>;` — evaluated with a tiny arithmetic evaluator, so that a constant may be written in
+    decimal or hex, through another named constant, or as an expression (`FOOTER_LENGTH + 8`, `4 * KB`, `1 << 11`)"""
+
+    def __init__(self, src):
+        self.src = norm(src)
+        self.raw = {}
+        for m in re.finditer(r"const (\w+): ((?:\[[^\]]*\]|[^=;\[])+?) = ([^;]+);", self.src):
+            self.raw[m.group(1)] = m.group(3).strip()
+
+    def value(self, expr, local=None, depth=0):
+        if depth > 8:
+            raise ValueError("cyclic constant")
+        e = expr.strip()
+        e = re.sub(r"\bas (u8|u16|u32|u64|usize|i32|i64)\b", "", e)
+        e = re.sub(r"\b(?:Self|\w+)::(\w+)\b", r"\1", e)
+
+        def lit(m):
+            t = re.sub(r"(u8|u16|u32|u64|usize|i32|i64)$", "", m.group(0)).replace("_", "")
+            return str(int(t, 0))
+        e = re.sub(r"\b" + NUMLIT + r"\b", lit, e)
+
+        def ident(m):
+            n = m.group(0)
+            if local and n in local:
+                return "(" + str(self.value(local[n], local, depth + 1)) + ")"
+            if n in self.raw:
+                return "(" + str(self.value(self.raw[n], local, depth + 1)) + ")"
+            raise ValueError("unknown identifier " + n)
+        e = re.sub(r"\b[A-Za-z_]\w*\b", ident, e)
+        if not re.fullmatch(r"[0-9+\-*/<>() ]+", e):
+            raise ValueError("not a constant expression: " + expr)
+        return int(eval(e.replace("/", "//"), {"__builtins__": {}}, {}))
+
+    def string(self, expr):
+        e = expr.strip()
+        m = re.fullmatch(r'"([^"]*)"', e)
+        if m:
+            return m.group(1)
+        n = re.sub(r"^(?:Self|\w+)::", "", e)
+        if n in self.raw:
+            return self.string(self.raw[n])
+        raise ValueError("not a string constant: " + expr)
+
+
+def locals_of(body):
+    """`let [mut] name[: T] = <literal or identifier>;` bindings of a normalised function body"""
+    out = {}
+    for m in re.finditer(r"let (?:mut )?(\w+)(?:: \w+)? = (" + NUMLIT + r"|[A-Z_][A-Z0-9_]*);", body):
+        out[m.group(1)] = m.group(2)
+    return out
+
+
 def main():
     found, missing = {}, []
 
-    def grab(key, src, pat, conv=num, group=1):
-        m = re.search(pat, src, re.S)
-        if not m:
-            missing.append(key)
-            return None
+    def put(key, f):
         try:
-            v = conv(m.group(group))
+            v = f()
+            if v is None:
+                raise ValueError("not found")
+            found[key] = v
         except Exception:
             missing.append(key)
-            return None
-        found[key] = v
-        return v
+
+    def need(m):
+        if not m:
+            raise ValueError("pattern not found")
+        return m
 
     tb = strip_tests(read("table_builder.rs"))
-    grab("footerLength", tb, r"pub const FOOTER_LENGTH: usize = ([0-9a-fx_]+);")
-    m = re.search(r"pub const FULL_FOOTER_LENGTH: usize = FOOTER_LENGTH \+ ([0-9]+);", tb)
-    if m and "footerLength" in found:
-        found["fullFooterLength"] = found["footerLength"] + int(m.group(1))
-    else:
-        grab("fullFooterLength", tb, r"pub const FULL_FOOTER_LENGTH: usize = ([0-9]+);")
-    grab("magicFooterEncoded", tb, r"const MAGIC_FOOTER_ENCODED: \[u8; 8\] = \[([^\]]+)\];",
-         lambda s: [num(x) for x in s.split(",") if x.strip()])
-    grab("tableBlockCompressLen", tb, r"pub const TABLE_BLOCK_COMPRESS_LEN: usize = ([0-9]+);")
-    grab("tableBlockCksumLen", tb, r"pub const TABLE_BLOCK_CKSUM_LEN: usize = ([0-9]+);")
+    etb = Env(tb)
+    put("footerLength", lambda: etb.value("FOOTER_LENGTH"))
+    put("fullFooterLength", lambda: etb.value("FULL_FOOTER_LENGTH"))
+    put("tableBlockCompressLen", lambda: etb.value("TABLE_BLOCK_COMPRESS_LEN"))
+    put("tableBlockCksumLen", lambda: etb.value("TABLE_BLOCK_CKSUM_LEN"))
+
+    def magic():
+        e = etb.raw["MAGIC_FOOTER_ENCODED"]
+        m = re.fullmatch(r"\[(.*)\]", e)
+        if m:
+            return [etb.value(x) for x in m.group(1).split(",") if x.strip()]
+        m = need(re.fullmatch(r"(.+)\.to_le_bytes\(\)", e))
+        return list(etb.value(m.group(1)).to_bytes(8, "little"))
+    put("magicFooterEncoded", magic)
 
     ty = strip_tests(read("types.rs"))
-    grab("maskDelta", ty, r"const MASK_DELTA: u32 = (0x[0-9a-fA-F]+);")
-    tyn = norm(ty)
+    ety = Env(ty)
+    put("maskDelta", lambda: ety.value("MASK_DELTA"))
+    tyn = ety.src
     mk = re.search(r"pub fn mask_crc\(\w+: u32\) -> u32 \{ \((\w+)\.wrapping_shr\((\d+)\) \| \1\.wrapping_shl\((\d+)\)\)\.wrapping_add\(MASK_DELTA\)", tyn)
-    mr = re.search(r"pub fn mask_crc\(\w+: u32\) -> u32 \{ \w+\.rotate_right\((\d+)\)\.wrapping_add\(MASK_DELTA\)", tyn)
+    mr = re.search(r"pub fn mask_crc\(\w+: u32\) -> u32 \{ \w+\.rotate_(right|left)\((\d+)\)\.wrapping_add\(MASK_DELTA\)", tyn)
     if mk:
         found["maskShr"], found["maskShl"] = int(mk.group(2)), int(mk.group(3))
     elif mr:
-        found["maskShr"], found["maskShl"] = int(mr.group(1)), 32 - int(mr.group(1))
+        k = int(mr.group(2))
+        found["maskShr"], found["maskShl"] = (k, 32 - k) if mr.group(1) == "right" else (32 - k, k)
     else:
         missing.extend(["maskShr", "maskShl"])
     um = re.search(r"let (\w+) = \w+\.wrapping_sub\(MASK_DELTA\); \1\.wrapping_shr\((\d+)\) \| \1\.wrapping_shl\((\d+)\)", tyn)
@@ -98,34 +162,61 @@ def main():
         missing.extend(["unmaskShr", "unmaskShl"])
 
     fb = strip_tests(read("filter_block.rs"))
-    grab("filterBaseLog2", fb, r"const FILTER_BASE_LOG2: u32 = (\d+);")
+    put("filterBaseLog2", lambda: Env(fb).value("FILTER_BASE_LOG2"))
 
     tbk = strip_tests(read("table_block.rs"))
-    # fix D20: the declared uncompressed length of a snappy block is checked against this multiple of the
-    # compressed length before the decoder allocates it
-    if re.search(r"let (\w+) = snap::raw::decompress_len\(&(\w+)\)\?; if \1 > \2\.len\(\)\.saturating_mul\(SNAPPY_MAX_EXPANSION\) \{ return err\( ?StatusCode::CompressionError,", norm(tbk)):
-        grab("snappyMaxExpansion", tbk, r"const SNAPPY_MAX_EXPANSION: usize = (\d+);")
-    else:
-        missing.append("snappyMaxExpansion")
+    etk = Env(tbk)
+    # fix D20: the declared uncompressed length of a snappy block is checked against a multiple of the compressed
+    # length before the decoder allocates it
+    put("snappyMaxExpansion", lambda: etk.value(need(re.search(
+        r"let (\w+) = snap::raw::decompress_len\(&(\w+)\)\?; if \1 > \2\.len\(\)\.saturating_mul\(([\w:]+)\) \{ return err\( ?StatusCode::CompressionError,",
+        etk.src)).group(3)))
 
     fl = strip_tests(read("filter.rs"))
-    grab("bloomSeed", fl, r"const BLOOM_SEED: u32 = (0x[0-9a-fA-F]+);")
+    efl = Env(fl)
+    fln = efl.src
     bh = fn_body(fl, "bloom_hash")
-    grab("bloomM", bh, r"let \w+: u32 = (0x[0-9a-fA-F]+);")
-    grab("bloomR", bh, r"let \w+: u32 = (\d+);")
-    grab("bloomMidShift", bh, r"(\w+) \^= \1 >> (\d+);", group=2)
-    fln = norm(fl)
-    grab("bloomDeltaShr", fln, r"let \w+ = \((\w+) >> (\d+)\) \| \(\1 << \d+\);", group=2)
-    grab("bloomDeltaShl", fln, r"let \w+ = \((\w+) >> \d+\) \| \(\1 << (\d+)\);", group=2)
+    lbh = locals_of(bh)
+    put("bloomSeed", lambda: efl.value("BLOOM_SEED"))
+    # the multiplier: `h = (h as u64 * <m> as u64) as u32`
+    put("bloomM", lambda: efl.value(need(re.search(r"\((\w+) as u64 \* ([\w:]+) as u64\) as u32", bh)).group(2), lbh))
+    shifts = re.findall(r"(\w+) \^= \1 >> ([\w:]+);", bh)
+    put("bloomMidShift", lambda: efl.value(shifts[0][1], lbh))
+    put("bloomR", lambda: efl.value(shifts[-1][1], lbh) if len(shifts) >= 2 else None)
+
+    def delta():
+        m = re.search(r"let \w+ = \((\w+) >> (\d+)\) \| \(\1 << (\d+)\);", fln)
+        if m:
+            return int(m.group(2)), int(m.group(3))
+        m = need(re.search(r"let \w+ = \w+\.rotate_(right|left)\((\d+)\);", fln))
+        k = int(m.group(2))
+        return (k, 32 - k) if m.group(1) == "right" else (32 - k, k)
+    put("bloomDeltaShr", lambda: delta()[0])
+    put("bloomDeltaShl", lambda: delta()[1])
     # k = bits_per_key * 0.69, clamped to [1, 30]; 0.69 is written as a rational 69/100
-    grab("bloomKNum", fln, r"\(\w+ as f32 \* 0\.(\d+)\) as u32")
-    grab("bloomKMin", fln, r"if (\w+) < (\d+) \{ \1 = \d+; \}", group=2)
-    grab("bloomKMax", fln, r"else if (\w+) > (\d+) \{ \1 = \d+; \}", group=2)
-    cf = fn_body(fl[fl.find("impl FilterPolicy for BloomPolicy"):], "create_filter")
-    km = fn_body(fl[fl.find("impl FilterPolicy for BloomPolicy"):], "key_may_match")
-    grab("bloomMinBits", cf, r"if \w+ < (\d+) \{")
+    nu = fn_body(fl, "new_unwrapped")
+    put("bloomKNum", lambda: int(need(re.search(r"\(\w+ as f32 \* 0\.(\d+)\) as u32", nu)).group(1)))
+
+    def clamp():
+        m = re.search(r"if (\w+) < ([\w:]+) \{ \1 = ([\w:]+); \} else if \1 > ([\w:]+) \{ \1 = ([\w:]+); \}", nu)
+        if m:
+            lo, lo2, hi, hi2 = (efl.value(m.group(i)) for i in (2, 3, 4, 5))
+            if lo != lo2 or hi != hi2:
+                raise ValueError("clamp bounds differ from the values assigned")
+            return lo, hi
+        m = re.search(r"\.clamp\(([\w:]+), ([\w:]+)\)", nu)
+        if m:
+            return efl.value(m.group(1)), efl.value(m.group(2))
+        m = need(re.search(r"\.max\(([\w:]+)\)\.min\(([\w:]+)\)", nu))
+        return efl.value(m.group(1)), efl.value(m.group(2))
+    put("bloomKMin", lambda: clamp()[0])
+    put("bloomKMax", lambda: clamp()[1])
+    impl = fl[fl.find("impl FilterPolicy for BloomPolicy"):]
+    cf = fn_body(impl, "create_filter")
+    km = fn_body(impl, "key_may_match")
+    put("bloomMinBits", lambda: efl.value(need(re.search(r"if \w+ < ([\w:]+) \{", cf)).group(1), locals_of(cf)))
     # key_may_match: filters whose probe-count byte exceeds this are treated as "may match" (reserved encodings)
-    grab("bloomReaderKMax", km, r"if \w+ > (\d+) \{ return true; \}")
+    put("bloomReaderKMax", lambda: efl.value(need(re.search(r"if \w+ > ([\w:]+) \{ return true; \}", km)).group(1), locals_of(km)))
     # width of the integer type in which the number of filter bits is computed (fix D19: u64; before: u32)
     ww = re.search(r"let (\w+) = \w+\.len\(\) as u(\d+) \* 8;", cf) or re.search(r"let (\w+) = \(\w+\.len\(\) \* 8\) as u(\d+);", cf)
     rw = re.search(r"let (\w+) = \(\w+\.len\(\) - 1\) as u(\d+) \* 8;", km)
@@ -138,16 +229,23 @@ def main():
         found["bloomBitsWidth"] = min(widths)
     else:
         missing.append("bloomBitsWidth")
-    grab("bloomName", fl, r'impl FilterPolicy for BloomPolicy \{\s*fn name\(&self\) -> &\'static str \{\s*"([^"]+)"', str)
-    grab("noFilterName", fl, r'impl FilterPolicy for NoFilterPolicy \{\s*fn name\(&self\) -> &\'static str \{\s*"([^"]+)"', str)
+
+    def name_of(impl_of):
+        body = fn_body(fl[fl.find("impl FilterPolicy for " + impl_of):], "name")
+        return efl.string(need(re.search(r"-> &'static str \{ (.+?) \}", body)).group(1))
+    put("bloomName", lambda: name_of("BloomPolicy"))
+    put("noFilterName", lambda: name_of("NoFilterPolicy"))
 
     op = strip_tests(read("options.rs"))
-    grab("compressionNone", op, r"CompressionNone = (\d+),")
-    grab("compressionSnappy", op, r"CompressionSnappy = (\d+),")
-    grab("defaultBlockSize", op, r"const BLOCK_MAX_SIZE: usize = (\d+) \* KB;", lambda s: int(s) * 1024)
-    grab("defaultRestartInterval", op, r"block_restart_interval: (\d+),")
-    grab("defaultBitsPerKey", op, r"const DEFAULT_BITS_PER_KEY: u32 = (\d+);")
-    grab("defaultCompression", op, r"compression_type: CompressionType::(\w+),", str)
+    eop = Env(op)
+    opn = eop.src
+    put("compressionNone", lambda: eop.value(need(re.search(r"CompressionNone = ([\w:]+),", opn)).group(1)))
+    put("compressionSnappy", lambda: eop.value(need(re.search(r"CompressionSnappy = ([\w:]+),", opn)).group(1)))
+    dfl = opn[opn.find("impl Default for Options"):]
+    put("defaultBlockSize", lambda: eop.value(need(re.search(r"\bblock_size: ([^,]+),", dfl)).group(1)))
+    put("defaultRestartInterval", lambda: eop.value(need(re.search(r"block_restart_interval: ([^,]+),", dfl)).group(1)))
+    put("defaultBitsPerKey", lambda: eop.value("DEFAULT_BITS_PER_KEY"))
+    put("defaultCompression", lambda: need(re.search(r"compression_type: CompressionType::(\w+),", dfl)).group(1))
 
     er = strip_tests(read("error.rs"))
     m = re.search(r"pub enum StatusCode \{(.*?)\}", er, re.S)
@@ -170,13 +268,14 @@ def main():
             missing.append("ioErrorDefault")
     else:
         missing.append("ioErrorTable")
-    if re.search(r"impl Display for Status \{ fn fmt\(&self, \w+: &mut Formatter\) -> result::Result<\(\), fmt::Error> \{ (\w+\.write_str\(&self\.err\)|write!\(\w+, \"\{\}\", self\.err\)) \}", ern):
+    if re.search(r"impl Display for Status \{ fn fmt\(&self, (\w+): &mut Formatter\) -> result::Result<\(\), fmt::Error> \{ (\1\.write_str\(&self\.err\)|write!\(\1, \"\{\}\", self\.err\)) \}", ern):
         found["displayWritesErr"] = "err"
     else:
         missing.append("displayWritesErr")
 
     cm = strip_tests(read("cmp.rs"))
-    grab("defaultCmpId", cm, r'fn id\(&self\) -> &\'static str \{\s*"([^"]+)"', str)
+    ecm = Env(cm)
+    put("defaultCmpId", lambda: ecm.string(need(re.search(r"fn id\(&self\) -> &'static str \{ (.+?) \}", fn_body(cm[cm.find("impl Cmp for DefaultCmp"):], "id"))).group(1)))
 
     def lean_str(s):
         return '"' + s.replace("\\", "\\\\").replace('"', '\\"') + '"'
